@@ -90,7 +90,7 @@ def nonneg_slice(s):
     )
 
 
-@contract(f"{UTILS}::_normalize_slice_for_fusion", props=["C13"])
+@contract(f"{UTILS}::_normalize_slice_for_fusion", props=["C13", "C25"])
 class normalize_slice_for_fusion:
     params = {"s": "slice"}
     ghosts = {"n": "int", "k": "int"}
@@ -151,7 +151,7 @@ def composed(result, a, b, n, k):
     }
 
 
-@contract(f"{UTILS}::fuse_slice", spec="slice,slice", props=["C13", "C02"])
+@contract(f"{UTILS}::fuse_slice", spec="slice,slice", props=["C13", "C02", "C25"])
 class fuse_slice__slice_slice:
     params = {"a": "slice", "b": "slice"}
     ghosts = {"n": "int", "k": "int"}
@@ -178,7 +178,7 @@ class fuse_slice__slice_slice:
                 yield {"a": a, "b": b}
 
 
-@contract(f"{UTILS}::fuse_slice", spec="slice,int", props=["C13", "C02"])
+@contract(f"{UTILS}::fuse_slice", spec="slice,int", props=["C13", "C02", "C25"])
 class fuse_slice__slice_int:
     params = {"a": "slice", "b": "int"}
     ghosts = {"n": "int"}
